@@ -5,7 +5,7 @@ import json, os, shutil, sys
 ID, N, caught = sys.argv[1], sys.argv[2], sys.argv[3]
 note = sys.argv[4] if len(sys.argv) > 4 else ""
 src = f"/tmp/wt/{ID}/_seed/{N}"
-dst = f"/verif/seeded/{ID}-{N}"
+dst = f"/verif/seeded/{ID}-{N}" if len(sys.argv) < 6 else f"/verif/seeded/{ID}-{sys.argv[5]}"
 os.makedirs(dst, exist_ok=True)
 for f in ("patch.diff", "demo.py", "notes.md"):
     shutil.copy(os.path.join(src, f), os.path.join(dst, f))
